@@ -169,6 +169,9 @@ FEATURE_GRAMMARS = [
     # a cut written directly inside a group commits the enclosing option / optional / closure iteration
     ('cut-in-group', "start: ('a' ~ 'b') | 'a' 'a' | x:('b' ~ 'a') | 'b' 'b' ;\n"),
     ('cut-in-group-optional', "start: [('a' ~ 'b')] 'a' $ | {('b' ~ 'a')} 'b' $ ;\n"),
+    # left/right joins: alone (model and generated agree) and under a name after another element (recorded finding)
+    ('left-right-joins', "start: 'b'<{'a'}+ $ | 'a'>{'b'}+ 'a' $ ;\n"),
+    ('left-right-joins-named', "start: x:'b' n:('b'<{'a'}+) $ | x:'a' n:('a'>{'b'}+) $ ;\n"),
     ('names-in-nested-choice', "start: ('a' x:'a' | 'b' [x:'b'] y:'a') [z:'b' | z+:'a'] ;\n"),
 ]
 
@@ -187,7 +190,7 @@ def feature_inputs(name, tier):
         'long-closures': ['a' * 20 + ' ', 'b' * 20 + ' ', 'd' * 20 + ' ', 'g' * 20 + ' ', 'i' * 20], 'long-named': ['a' * 20 + ' ', 'c' * 20 + ' ', 'd' * 20, 'a'],
     }.get(name, ['a', 'b', ' '])
     n = 4 if tier == 'quick' else 5
-    if name in ('include', 'pynames', 'meta-all', 'lookaheads', 'unicode', 'token-rule-names', 'cut-in-group-optional') or name.startswith('long-'):
+    if name in ('include', 'pynames', 'meta-all', 'lookaheads', 'unicode', 'token-rule-names', 'cut-in-group-optional', 'left-right-joins', 'left-right-joins-named') or name.startswith('long-'):
         n = 5       # their longest alternative needs that many lexemes
     if name == 'long-choice':
         n = 2
